@@ -9,6 +9,7 @@
    ValueError); [parse_pinned] is the code as pinned (C20_pinned_defect). *)
 From Isobar Require Import Base.Prelude Notation.Lexer Notation.Parser Notation.ParserProofs.
 From Isobar Require Import Notation.PSeq Notation.PSeqProofs Tonal.Key Generated.Tables.
+From Isobar Require Import Notation.PSeqProto Notation.PSeqProtoProofs.
 From Coq Require Import String Ascii.
 Local Notation length := List.length (only parsing).
 
@@ -234,3 +235,92 @@ Proof.
     try discriminate; try reflexivity. f_equal. lia.
 Qed.
 Print Assumptions C20_note_tokens.
+
+(** ** The parsed pattern through the whole pattern protocol (Notation/PSeqProto.v).
+    reset(), all(), len() and copy() in the middle of a cycle, by any number of holders: [preset] is PSequence.reset on
+    the tree of PSequence objects (every group, at every depth, back to position 0), [pall m] is all(maximum=m)
+    (len() is the length of its result), a history is a list of [ONext]/[OReset]/[OAll]/[OCopy] on a store of objects
+    (the parsed one and its copies).  After a rewind "a nested group contributes one element per cycle of its parent"
+    must hold from the start again: *)
+
+(* for every parsed string and every number of steps: a reset restores exactly the freshly parsed object *)
+Theorem C20_reset_restores : forall uw s g k,
+  parse uw s = Ok g ->
+  preset (after k (pattern_of g)) = pattern_of g /\ preset (snd (pnextn k (pattern_of g))) = pattern_of g.
+Proof. intros uw s g k _. split; [apply (preset_after k (Node g))|apply (preset_pnextn k (Node g))]. Qed.
+Print Assumptions C20_reset_restores.
+
+(* output form: next^k; reset; nextn(n) returns what nextn(n) returns on a fresh parse *)
+Theorem C20_rewind_outputs : forall uw s g k n,
+  parse uw s = Ok g ->
+  fst (pnextn n (preset (snd (pnextn k (pattern_of g))))) = outputs n g.
+Proof. intros uw s g k n _. change (pattern_of g) with (init (Node g)). rewrite (preset_pnextn k (Node g)). reflexivity. Qed.
+Print Assumptions C20_rewind_outputs.
+
+(* all(m) in the middle of a cycle returns the next m values (fewer only if an empty group stops the pattern) and
+   leaves the freshly parsed object behind *)
+Theorem C20_all_rewinds : forall uw s g k m,
+  parse uw s = Ok g ->
+  let p := snd (pnextn k (pattern_of g)) in
+  fst (pall m p) = fst (pnextn m p) /\ snd (pall m p) = pattern_of g.
+Proof.
+  intros uw s g k m _ p. unfold pall. pose proof (pnextn_erase m p) as H. destruct (pnextn m p) as [vs p'] eqn:E.
+  cbn [fst snd] in *. split; [reflexivity|]. rewrite preset_init_erase, H. unfold p.
+  rewrite pnextn_erase. change (pattern_of g) with (init (Node g)). rewrite (erase_init (Node g)). reflexivity.
+Qed.
+Print Assumptions C20_all_rewinds.
+
+(* over whole histories: whatever was done to the parsed object and to its copies (steps, resets, all(), further copies, in
+   any interleaving), every object still denotes the parsed nested sequence, and a reset() or all() of ANY of them followed by
+   nextn(n) returns the outputs of a fresh parse *)
+Theorem C20_history_rewind : forall uw s g ops i n,
+  parse uw s = Ok g ->
+  let st := snd (prun [pattern_of g] ops) in
+  (forall p, In p st -> erase p = Node g)
+  /\ ((i < length st)%nat ->
+      fst (pstep (snd (pstep st (OReset i))) (ONext i n)) = outputs n g
+      /\ forall m, fst (pstep (snd (pstep st (OAll i m))) (ONext i n)) = outputs n g).
+Proof.
+  intros uw s g ops i n _ st.
+  assert (H : all_shape (Node g) st).
+  { apply prun_shape. intros p [<-|[]]. apply (erase_init (Node g)). }
+  split; [exact H|]. intros Hi. apply (rewind_then_next (Node g) st i n H Hi).
+Qed.
+Print Assumptions C20_history_rewind.
+
+(* hence the cycle structure restarts: after a rewind at any point of any history, value number c*n+i of the rewound object is
+   value number c of a FRESH i-th element (one element per cycle of the parent, from the start again) *)
+Theorem C20_cycle_after_rewind : forall uw s g ops j c i,
+  parse uw s = Ok g -> g <> [] -> forallb no_empty_group g = true -> (i < length g)%nat ->
+  let st := snd (prun [pattern_of g] ops) in
+  forall p, nth_error st j = Some p ->
+  kth (c * length g + i) (preset p) = kth c (init (nth i g (Leaf (VInt 0)))).
+Proof.
+  intros uw s g ops j c i Hp Hne Hall Hi st p E.
+  destruct (C20_history_rewind uw s g ops j 0 Hp) as [Hs _]. fold st in Hs.
+  rewrite preset_init_erase, (Hs p (nth_error_In _ _ E)). apply cycle_trees; assumption.
+Qed.
+Print Assumptions C20_cycle_after_rewind.
+
+(* copies: a copy starts in the state of its original, and what is done to one object is invisible to every other *)
+Theorem C20_copy_independent : forall st o i j p,
+  (nth_error st i = Some p ->
+     nth_error (snd (pstep st (OCopy i))) (length st) = Some p /\ nth_error (snd (pstep st (OCopy i))) i = Some p)
+  /\ (target o <> j -> (j < length st)%nat -> nth_error (snd (pstep st o)) j = nth_error st j).
+Proof.
+  intros st o i j p. split.
+  - intros E. destruct (pstep_copy st i p E) as (_ & A & B). split; assumption.
+  - apply pstep_frame.
+Qed.
+Print Assumptions C20_copy_independent.
+
+Example C20_rewind_nonvacuous :
+  (* '1 [10 11]': nextn(6), copy, reset, nextn(3) = [1, 10, 1]; the copy goes on with [1, 11, 1] (6 steps = 3 parent cycles:
+     the nested group has been visited 3 times and is in the middle of its own cycle); after 5 steps the nested group is mid-cycle: all(2) = [11, 1], then nextn(3) = [1, 10, 1] *)
+  let s := [49;32;91;49;48;32;49;49;93] in
+  exists g, parse (fun _ => false) s = Ok g /\
+    fst (prun [pattern_of g] [ONext 0 6; OCopy 0; OReset 0; ONext 0 3; ONext 1 3])
+      = [[VInt 1; VInt 10; VInt 1; VInt 11; VInt 1; VInt 10]; []; []; [VInt 1; VInt 10; VInt 1]; [VInt 1; VInt 11; VInt 1]] /\
+    fst (prun [pattern_of g] [ONext 0 3; OAll 0 2; ONext 0 3])
+      = [[VInt 1; VInt 10; VInt 1]; [VInt 11; VInt 1]; [VInt 1; VInt 10; VInt 1]].
+Proof. eexists. vm_compute. repeat split; reflexivity. Qed.
